@@ -25,6 +25,20 @@ Fixpoint cdb (k : nat -> F) (j : nat) (x : F) (e i : nat) : F :=
       t1 +! t2
   end.
 
+(* derivative in x of B_{i,e} on the knot interval j: the product rule applied to the recursion above *)
+Fixpoint dcdb (k : nat -> F) (j : nat) (x : F) (e i : nat) : F :=
+  match e with
+  | O => o0
+  | S e' =>
+      let t1 := if Nat.leb (j - e') i && Nat.leb i j
+                then o1 /! (k (i + e) -! k i) *! cdb k j x e' i
+                     +! (x -! k i) /! (k (i + e) -! k i) *! dcdb k j x e' i else o0 in
+      let t2 := if Nat.leb (j - e') (S i) && Nat.leb (S i) j
+                then oopp o1 /! (k (S (i + e)) -! k (S i)) *! cdb k j x e' (S i)
+                     +! (k (S (i + e)) -! x) /! (k (S (i + e)) -! k (S i)) *! dcdb k j x e' (S i) else o0 in
+      t1 +! t2
+  end.
+
 Definition knot_fun (knots : list F) : nat -> F := fun i => nth i knots o0.
 
 (* values of all basis functions of degree d at x in interval j *)
